@@ -86,6 +86,7 @@ InitState ==
    pipe |-> <<>>,
    io |-> [rlist |-> <<>>, wlist |-> <<>>, deadline |-> NodeCfg.wakeup, done |-> FALSE],
    e2e |-> 1000,
+   snd |-> <<>>,                           \* application threads blocked in send_request: [k, a, hbh, e2e, c, dl, st, ans]
    held |-> <<>>,                          \* requests delivered to "hold" applications: [a, c, m, answered]
    overflow |-> FALSE,                     \* the instance's MaxConn bound cut a dial short (such states are discarded)
    dialPlan |-> <<>>,                      \* outcomes the environment will give to the next connect() calls
@@ -284,7 +285,42 @@ ReceiveAppRequest(S, c, m) ==   \* -> [S, raised]
 ReceiveAppAnswer(S, c, m) ==
   IF ~\E r \in S.appWait : r.hbh = m.hbh /\ r.e2e = m.e2e THEN S
   ELSE LET r == CHOOSE r \in S.appWait : r.hbh = m.hbh /\ r.e2e = m.e2e
-       IN Emit(S, [ev |-> "app_ans", a |-> r.app, m |-> m])      \* nobody blocked in send_request in this model
+           \* (the _answer_waiting entry stays until the sender thread has run: a second answer overwrites the first)
+           ws == {j \in 1..Len(S.snd) : S.snd[j].st \in {"wait", "woken"} /\ S.snd[j].a = r.app /\ S.snd[j].hbh = m.hbh}
+       IN IF ws # {}
+          THEN LET j == CHOOSE x \in ws : \A y \in ws : x <= y IN [S EXCEPT !.snd[j].st = "woken", !.snd[j].ans = m]
+          ELSE Emit(S, [ev |-> "app_ans", a |-> r.app, m |-> m])
+
+\* ------------------------------------------------------------------ Application.send_request / Node.route_request
+\* _peer_routes[realm][app] in registration order; "_default" peers of a realm in add_peer order
+RouteSeq(a, r) == SelectSeq(PeerOrder, LAMBDA p : p \in RoutePeers(a, r))
+DefaultSeq(r) == SelectSeq(PeerOrder, LAMBDA p : PeerCfg[p].default /\ PeerCfg[p].realm = r)
+HasRoutes(r) == r = NodeCfg.realm \/ (\E a \in Apps : RoutePeers(a, r) # {}) \/ DefaultSeq(r) # <<>>
+PeerList(a, r) == IF ~HasRoutes(r) THEN <<>> ELSE IF RouteSeq(a, r) # <<>> THEN RouteSeq(a, r) ELSE DefaultSeq(r)
+UsablePeers(S, a, r) == SelectSeq(PeerList(a, r), LAMBDA p : S.peer[p].conn # 0 /\ S.conn[S.peer[p].conn].st \in READYSTATES)
+
+\* sender k of application a sends a request to realm r, waits `timeout`; `pick` is what the selection callback returns
+SendRequest(S, k, a, r, timeout, pick) ==
+  LET us == UsablePeers(S, a, r) IN
+  IF us = <<>> THEN Emit([S EXCEPT !.e2e = @ + 1],             \* the end-to-end id is drawn before routing
+                         [ev |-> "req_result", k |-> k, r |-> "NotRoutable", hbh |-> 0, e2e |-> 0])
+  ELSE LET S0 == IF Len(us) > 1 THEN Emit(S, [ev |-> "select", a |-> a, offered |-> us]) ELSE S
+           p  == IF Len(us) > 1 THEN (IF pick = "last" THEN us[Len(us)] ELSE us[1]) ELSE us[1]
+           c  == S.peer[p].conn
+           e2e == S.e2e + 1
+           hbh == NextHbh(S, c)
+           m  == [Request("APP", 272, hbh, e2e) EXCEPT !.app = AppCfg[a].id, !.realm = r]
+           S1 == [S0 EXCEPT !.e2e = e2e, !.conn[c].hbh = hbh, !.appWait = @ \cup {[hbh |-> hbh, e2e |-> e2e, app |-> a]},
+                            !.snd = Append(@, [k |-> k, a |-> a, hbh |-> hbh, e2e |-> e2e, c |-> c, dl |-> S.now + timeout, st |-> "wait", ans |-> m])]
+       IN SendMessage(S1, c, m)
+
+\* the blocked sender returns: with the answer, or with a timeout
+SndReady(S) == {j \in 1..Len(S.snd) : S.snd[j].st = "woken" \/ (S.snd[j].st = "wait" /\ S.now >= S.snd[j].dl)}
+SndStep(S, j) ==
+  LET x == S.snd[j] IN
+  IF x.st = "woken"
+  THEN Emit([S EXCEPT !.snd[j].st = "done"], [ev |-> "req_result", k |-> x.k, r |-> "answer", hbh |-> x.ans.hbh, e2e |-> x.ans.e2e])
+  ELSE Emit([S EXCEPT !.snd[j].st = "done"], [ev |-> "req_result", k |-> x.k, r |-> "Timeout", hbh |-> x.hbh, e2e |-> x.e2e])
 
 \* ------------------------------------------------------------------ Node._receive_message
 OwSet(S, m) == [S EXCEPT !.originWait = {r \in @ : ~(r.hbh = m.hbh /\ r.e2e = m.e2e)} \cup {[hbh |-> m.hbh, e2e |-> m.e2e, oh |-> m.oh]}]
@@ -480,10 +516,11 @@ IoIter(S) ==
 RdReady(S) == {c \in ConnIds : RdEnabled(S, c)}
 WrReady(S) == {c \in ConnIds : WrEnabled(S, c)}
 Min(s) == CHOOSE x \in s : \A y \in s : x <= y
-AnyEnabled(S) == RdReady(S) # {} \/ WrReady(S) # {} \/ IoEnabled(S)
+AnyEnabled(S) == RdReady(S) # {} \/ WrReady(S) # {} \/ IoEnabled(S) \/ SndReady(S) # {}
 StepPrio(S) == IF RdReady(S) # {} THEN RdStep(S, Min(RdReady(S)))
                ELSE IF WrReady(S) # {} THEN WrStep(S, Min(WrReady(S)))
-               ELSE IoIter(S)
+               ELSE IF IoEnabled(S) THEN IoIter(S)
+               ELSE SndStep(S, Min(SndReady(S)))
 RECURSIVE QuiesceN(_, _)
 QuiesceN(S, n) == IF n = 0 \/ ~AnyEnabled(S) THEN S ELSE QuiesceN(StepPrio(S), n - 1)
 Quiesce(S) == QuiesceN(S, 200)
